@@ -89,6 +89,10 @@ def lazy_null_constraints(v, acc, prefer='Null'):
 
 def fval(x, model):
     f = model.eval(x.f, model_completion=True) if model is not None else z3.simplify(x.f)
+    try:
+        if z3.is_fprm_value(f) is False and hasattr(f, 'isNaN') and f.isNaN(): return float('nan')
+        if hasattr(f, 'isInf') and f.isInf(): return float('-inf') if f.isNegative() else float('inf')
+    except Exception: pass
     bits = z3.simplify(z3.fpToIEEEBV(f))
     if z3.is_bv_value(bits): return struct.unpack('<d', struct.pack('<Q', bits.as_long()))[0]
     return None
